@@ -451,6 +451,14 @@ def plan(tier, seed):
     total = len(OPENERS) * len(INNERS) * len(INNERS)
     for i in range(0, total, 400):
         cases.append({"gen": "nest", "lo": i, "hi": min(total, i + 400)})
+    # two levels: outer construct / inner construct / two statements inside / closers; complete in the thorough tier
+    total2 = len(OPENERS) * len(OPENERS) * len(INNERS) * len(INNERS)
+    if thorough:
+        for i in range(0, total2, 500):
+            cases.append({"gen": "nest2", "lo": i, "hi": min(total2, i + 500)})
+    else:
+        for i in range(0, 6000, 300):
+            cases.append({"gen": "nest2", "sample": 300, "seed": mix(seed, "nest2", i)})
     total = len(MAC_DECLS) * len(MAC_BODIES) * len(MAC_CALLS)
     for i in range(0, total, 300):
         cases.append({"gen": "maccall", "lo": i, "hi": min(total, i + 300)})
@@ -963,6 +971,33 @@ def _run_case(sim, case, acc):
             src = "\tcpu %s\n%s\n%s\n%s\n%s\n\tnop\n" % ("z80" if idx & 1 else "68000", opener, INNERS[i1], closer if (idx >> 1) & 1 else "", INNERS[i2])
             run_one(sim, acc, "asl", sc_asl(src, ["-U"] if idx % 7 == 0 else []), "nest %d" % idx, "construct-interplay")
         acc.sample = {"space": "construct interplay", "example": src}
+    elif g == "nest2":
+        no, ni = len(OPENERS), len(INNERS)
+        total2 = no * no * ni * ni
+        if "sample" in case:
+            rng = Rng(case["seed"])
+            idxs = [rng.below(total2) for _ in range(case["sample"])]
+        else:
+            idxs = range(case["lo"], case["hi"])
+        src = ""
+        for idx in idxs:
+            o1 = idx % no
+            o2 = (idx // no) % no
+            i1 = (idx // (no * no)) % ni
+            i2 = idx // (no * no * ni)
+            op1, cl1 = OPENERS[o1]
+            op2, cl2 = OPENERS[o2]
+            # distinct names when the same construct is used twice
+            op2, cl2 = op2.replace("m1", "m2").replace("s1", "s2").replace("u1", "u2").replace("f1", "f2").replace("sec", "sec2"), \
+                cl2.replace("m1", "m2").replace("s1", "s2").replace("u1", "u2")
+            src = "\tcpu %s\n%s\n\tnop\n%s\n%s\n%s\n%s\n\tnop\n%s\n\tnop\n" % (
+                "z80" if idx & 1 else "68000", op1, op2, INNERS[i1], INNERS[i2], cl2, cl1 if (idx >> 1) % 3 else "")
+            r, san, cls = run_one(sim, acc, "asl", sc_asl(src, cpu=10), "nest2 %d" % idx, "construct-interplay-2")
+            if cls and "hang" in cls and may_not_terminate(src.encode()):
+                acc.violations = [v for v in acc.violations if v["class"] != cls]
+                acc.seen_cls.discard(cls)
+                acc.bump(acc.probes, "hang_ignored_while_or_recursive_macro")
+        acc.sample = {"space": "two-level construct interplay", "example": src}
     elif g == "maccall":
         for idx in range(case["lo"], case["hi"]):
             d = idx % len(MAC_DECLS)
